@@ -6,6 +6,7 @@ import (
 	"go/types"
 	"runtime"
 	"sort"
+	"strconv"
 	"strings"
 	"sync"
 
@@ -245,6 +246,54 @@ func checkC17(c *Ctx, r *Report) {
 	r.Extra["decoders"] = n
 
 	checkFreshLayers(c, r, "fresh-layers")
+	checkSerialisersOverwrite(c, r)
+
+	// the command's response value is decoded on every successful call: a reused command
+	// (a sensor reader polling, the SDR walk) must never report the previous response
+	r.Rule("response-always-decoded", "whenever the command has a response layer, every error-free return of SendCommand has decoded the reply's payload into it", 2)
+	for _, sc := range c.sendCommandImpls() {
+		name := c.FnName(sc)
+		cmdParam := sc.Params[len(sc.Params)-1]
+		isResponse := func(p CPath, v ssa.Value) bool {
+			call, ok := p.Resolve(v).(*ssa.Call)
+			return ok && call.Call.IsInvoke() && call.Call.Method.Name() == "Response" && p.Resolve(call.Call.Value) == ssa.Value(cmdParam)
+		}
+		okDec, nDec := true, 0
+		complete := enumPaths(sc, 2, 20000, func(p CPath) {
+			ret, isRet := p.Last().(*ssa.Return)
+			if !isRet || ret.Parent() != sc || len(ret.Results) != 2 || !isNilConst(p.Resolve(ret.Results[1])) {
+				return
+			}
+			// does the path know the command has a response layer?
+			has := false
+			for _, rel := range p.relations() {
+				if rel.Op != token.NEQ {
+					continue
+				}
+				if (isNilConst(rel.Y) && isResponse(p, rel.X)) || (isNilConst(rel.X) && isResponse(p, rel.Y)) {
+					has = true
+				}
+			}
+			if !has {
+				return
+			}
+			nDec++
+			decoded := false
+			for _, in := range p.Instrs() {
+				if cc := asCall(in); cc != nil && cc.IsInvoke() && cc.Method.Name() == "DecodeFromBytes" && isResponse(p, cc.Value) {
+					decoded = true
+				}
+			}
+			if !decoded {
+				okDec = false
+			}
+		})
+		if !complete {
+			r.Unk(name+"|response decoded", sc.Pos(), "too many paths")
+			continue
+		}
+		r.Check(okDec && nDec > 0, name+"|response decoded", sc.Pos(), "decoded on every error-free path that has a response layer", "an error-free return skips decoding the response layer: the command value keeps the fields of an earlier response")
+	}
 
 	// completion code read after the exchange (same rule as C10.code-from-message-layer)
 	r.Rule("code-after-exchange", "SendCommand reads the completion code after the exchange of the same call returned without error", 2)
@@ -297,7 +346,6 @@ func checkC17(c *Ctx, r *Report) {
 	}
 }
 
-
 // reportAssignment reports the definite-assignment verdict of one decoder.
 func reportAssignment(c *Ctx, r *Report, k *c17, fn *ssa.Function) {
 	name := c.FnName(fn)
@@ -335,5 +383,130 @@ func reportAssignment(c *Ctx, r *Report, k *c17, fn *ssa.Function) {
 			continue
 		}
 		r.Bad(name+"|field "+f, s.partial[f], "array field "+f+" is filled by a copy whose source may be shorter than the array: the tail keeps bytes of an earlier decode")
+	}
+}
+
+// checkSerialisersOverwrite: the connection serialises every packet into one
+// reused buffer whose bytes are not cleared between packets, so a serialiser
+// must store every byte it claims, on every path, and never read one before
+// storing it. Decided on engine E2's events for every SerializeTo of the
+// module: per success path, each prepended/appended region of constant length
+// is covered byte for byte by stores, copies or a fill loop, and no byte of an
+// output region is read before it was written.
+func checkSerialisersOverwrite(c *Ctx, r *Report) {
+	r.Rule("serialisers-overwrite", "every serialiser writes every byte of the regions it prepends/appends on every path and reads none of them first (the buffer is reused between packets)", 15)
+	for _, p := range c.ModulePackages() {
+		names := p.Types.Scope().Names()
+		sort.Strings(names)
+		for _, nm := range names {
+			tn, ok := p.Types.Scope().Lookup(nm).(*types.TypeName)
+			if !ok || tn.IsAlias() {
+				continue
+			}
+			nt, ok := tn.Type().(*types.Named)
+			if !ok {
+				continue
+			}
+			fn := c.MethodOf(nt, "SerializeTo")
+			if fn == nil || fn.Blocks == nil || !c.InModule(fn) || fn.Synthetic != "" {
+				continue
+			}
+			if recvNamed(fn) == nil || recvNamed(fn).Obj() != nt.Obj() {
+				continue // promoted from an embedded type: reported there
+			}
+			name := c.FnName(fn)
+			r.Fn(name)
+			evs, why := extractEvents(c, fn, nil)
+			if why != "" {
+				r.Unk(name+"|overwrites", fn.Pos(), why)
+				continue
+			}
+			ok2, whyNot := true, ""
+			nOK := 0
+			for _, le := range evs {
+				if !le.OK {
+					continue
+				}
+				nOK++
+				for _, ev := range le.Events {
+					if ev.Kind == "stale" || ev.Kind == "loop:stale" {
+						ok2, whyNot = false, "byte "+ev.Name+" is read before it is written: it still holds what an earlier packet left in the reused buffer"
+					}
+				}
+				// coverage of constant-length regions
+				for _, lev := range le.Events {
+					if lev.Kind != "len" || lev.L == nil {
+						continue
+					}
+					n, isK := lev.L.isConst()
+					if !isK || n <= 0 || n > 4096 || strings.HasPrefix(lev.Name, "buf") {
+						continue
+					}
+					covered := make([]bool, n)
+					for _, ev := range le.Events {
+						switch ev.Kind {
+						case "wire":
+							if ev.Org == lev.Name && ev.Idx != nil {
+								if k, isC := ev.Idx.isConst(); isC && k >= 0 && k < n {
+									covered[k] = true
+								}
+							} else if strings.HasPrefix(ev.Name, lev.Name+"[") {
+								body := strings.TrimSuffix(strings.TrimPrefix(ev.Name, lev.Name+"["), "]")
+								if i := strings.Index(body, ":"); i >= 0 {
+									lo, e1 := strconv.ParseInt(body[:i], 10, 64)
+									hiS := body[i+1:]
+									var hi int64
+									var e2 error
+									if strings.HasPrefix(hiS, "+") {
+										var d int64
+										d, e2 = strconv.ParseInt(hiS[1:], 10, 64)
+										hi = lo + d
+									} else {
+										hi, e2 = strconv.ParseInt(hiS, 10, 64)
+									}
+									if e1 == nil && e2 == nil {
+										for k := lo; k < hi && k < n; k++ {
+											if k >= 0 {
+												covered[k] = true
+											}
+										}
+									}
+								} else if k, e1 := strconv.ParseInt(body, 10, 64); e1 == nil && k >= 0 && k < n {
+									covered[k] = true
+								}
+							}
+						case "loop:wire":
+							if ev.Org != lev.Name {
+								continue
+							}
+							if run, w := runOf(ev); w == "" {
+								if lo, isC := run.Idx0.isConst(); isC {
+									for hi := n; hi > lo; hi-- {
+										if cov, _ := run.coversUpTo(linConst(hi), le.Cons); cov {
+											for k := lo; k < hi; k++ {
+												if k >= 0 {
+													covered[k] = true
+												}
+											}
+											break
+										}
+									}
+								}
+							}
+						}
+					}
+					for k, cv := range covered {
+						if !cv {
+							ok2, whyNot = false, fmt.Sprintf("byte %d of %s is not written on some path: it carries what an earlier packet left in the reused buffer", k, lev.Name)
+							break
+						}
+					}
+				}
+			}
+			if nOK == 0 {
+				continue
+			}
+			r.Check(ok2, name+"|overwrites", fn.Pos(), "every claimed byte is stored on every path", whyNot)
+		}
 	}
 }
